@@ -353,6 +353,7 @@ pub fn scenarios(thorough: bool) -> Vec<Scenario> {
     v.push(trio_scenario("trio", if thorough { 7 } else { 5 }));
     v.push(trio_merge_scenario("trio-merge", if thorough { 3 } else { 2 }, &[]));
     v.extend(cross_scenarios(thorough));
+    v.extend(combo_scenarios(thorough));
     v
 }
 
